@@ -87,8 +87,9 @@ def api_flag_prov(ctx):
             continue
         okp += 1
         want = "Result::Ok{0: Regex::Regex{re_program: %s, matches_empty_string: is_match(new(%s, \"\"))}}" % (PROG, PROG)
+        _rec(d, "new|program", ("re_program: %s, " % PROG) in r or ("re_program: %s}" % PROG) in r, "Regex::new must compile (pattern.chars(), ReFlags::new(flags, dialect)) and keep that program; found %s" % r[:200], loc)
         _rec(d, "new", r == want, "Regex::new must compile (pattern.chars(), ReFlags::new(flags, dialect)) and set matches_empty_string = is_match of a fresh matcher of the same program on \"\"; found %s" % r[:260], loc)
-    _rec(d, "new|ok-path", okp == 1, "Regex::new must have exactly one successful path", b.loc())
+    _rec(d, "new|ok-path", okp >= 1, "Regex::new has no successful path", b.loc())
     for nm, lang in (("xpath", "XPath"), ("xsd", "XSD")):
         x = ctx.body("regex::Regex::" + nm)
         if x is None:
@@ -118,7 +119,15 @@ def api_flag_prov(ctx):
         rs = {strip_ver(render(p.ret)) for p in ctx.walk(sn).paths}
         r0 = next(iter(rs))
         _rec(d, "State::new", "anchored_match: false" in r0 and "history: History::new()" in r0 and "capture_state: CaptureState::new()" in r0, "State::new must start unanchored with an empty history and capture state; found %s" % r0[:200], sn.loc())
-    return _emit(d)
+    out = _emit(d)
+    NULLABLE = ["C16", "C06", "C04", "C15", "C13", "C02", "C03", "C18"]
+    NOT_COMPILE_ONLY = [p_ for p_ in ("C%02d" % k for k in range(1, 21)) if p_ != "C07"]
+    for i_ in out:
+        if i_.key == "new":
+            i_.props = NULLABLE  # the part of `new` beyond new|program is the nullable flag
+        elif i_.key in ("matcher", "is_match", "ReMatcher::new", "ReMatcher::is_match", "State::new"):
+            i_.props = NOT_COMPILE_ONLY
+    return out
 
 
 @rule("TOKEN-TABLE", ["C04", "C02", "C06", "C16"], floor=3)
